@@ -6,6 +6,7 @@ import (
 	"encoding/json"
 	"fmt"
 	"reflect"
+	"regexp"
 	"sort"
 	"testing"
 
@@ -276,6 +277,53 @@ func hijackRoundTrip(rep Rep, d *asv1.StatefulSet) {
 	if p.Annotations["patched"] != "yes" || p.APIVersion != "apps/v1" {
 		rep.Violate("hijack/patch-result", "Patch result: annotations %v apiVersion %q", p.Annotations, p.APIVersion)
 	}
+	// a patch written for the built-in API means through the hijack client what it means there: the same patches are
+	// applied to the same object held by a plain built-in (fake) API, and the outcomes are compared
+	cur, err := cl.Get(ctx, in.Name, metav1.GetOptions{})
+	if err != nil {
+		rep.Violate("hijack/get-failed", "Get failed: %v", err)
+	}
+	refObj := cur.DeepCopy()
+	refObj.ResourceVersion = ""
+	ref := kubefake.NewSimpleClientset(refObj).AppsV1().StatefulSets(NS)
+	type patch struct {
+		pt   types.PatchType
+		body string
+	}
+	patches := []patch{
+		{types.StrategicMergePatchType, `{"metadata":{"finalizers":["verif.example/hold"]}}`},
+		{types.MergePatchType, `{"spec":{"replicas":5}}`},
+		{types.StrategicMergePatchType, `{"metadata":{"annotations":{"delete-slots":"[1,3]"}},"spec":{"replicas":2}}`},
+	}
+	if cs := cur.Spec.Template.Spec.Containers; len(cs) > 0 {
+		nm, _ := json.Marshal(cs[0].Name)
+		patches = append(patches, patch{types.StrategicMergePatchType, fmt.Sprintf(`{"spec":{"template":{"spec":{"containers":[{"name":%s,"image":"patched:1"}]}}}}`, nm)})
+		rep.Label("patch/strategic-list-merge")
+	}
+	for _, pa := range patches {
+		g, gerr := cl.Patch(ctx, in.Name, pa.pt, []byte(pa.body), metav1.PatchOptions{})
+		w, werr := ref.Patch(ctx, in.Name, pa.pt, []byte(pa.body), metav1.PatchOptions{})
+		if (gerr == nil) != (werr == nil) {
+			rep.Violate("hijack/patch-outcome-differs", "%s patch %s: through the hijack client err=%v, against the built-in API err=%v", pa.pt, pa.body, gerr, werr)
+		}
+		if gerr != nil {
+			continue
+		}
+		g, w = g.DeepCopy(), w.DeepCopy()
+		zeroUnmodelled(w)
+		g.ResourceVersion, w.ResourceVersion = "", ""
+		if !c19Equal.DeepEqual(g.ObjectMeta, w.ObjectMeta) || !c19Equal.DeepEqual(g.Spec, w.Spec) || !c19Equal.DeepEqual(g.Status, w.Status) {
+			rep.Violate("hijack/patch-differs-from-builtin", "%s patch %s: the result through the hijack client differs from the result against the built-in API at %s", pa.pt, pa.body, explain(w, g))
+		}
+		back, err := cl.Get(ctx, in.Name, metav1.GetOptions{})
+		if err != nil {
+			rep.Violate("hijack/get-failed", "Get failed: %v", err)
+		}
+		back.ResourceVersion = ""
+		if !c19Equal.DeepEqual(back.ObjectMeta, w.ObjectMeta) || !c19Equal.DeepEqual(back.Spec, w.Spec) {
+			rep.Violate("hijack/patch-readback-differs", "%s patch %s: the object read back differs from the result against the built-in API at %s", pa.pt, pa.body, explain(w, back))
+		}
+	}
 }
 
 func TestC19(t *testing.T)        { checkCases(t, "C19", genC19, runC19) }
@@ -490,6 +538,9 @@ func TestC19Ann(t *testing.T)        { checkCases(t, "C19", genC19Ann, runC19Ann
 func TestRegressC19Ann(t *testing.T) { regress(t, "C19Ann", runC19Ann) }
 
 // FuzzC19: JSON bytes of a built-in StatefulSet under the native fuzzer; anything that decodes must round-trip.
+// hugeExponent: a number with an exponent of three or more digits (resource.Quantity computes 10^n with math/big)
+var hugeExponent = regexp.MustCompile(`[0-9.][eE][+-]?[0-9]{3,}`)
+
 func FuzzC19(f *testing.F) {
 	f.Add([]byte(`{"apiVersion":"apps/v1","kind":"StatefulSet","metadata":{"name":"web","labels":{},"annotations":{"delete-slots":"[1]"}},"spec":{"replicas":3,"selector":{"matchLabels":{"app":"web"}},"serviceName":"svc","template":{"metadata":{"labels":{"app":"web"}},"spec":{"containers":[{"name":"c","image":"i","resources":{"limits":{"cpu":"1000m"}},"ports":[{"containerPort":80}]}],"volumes":[{"name":"v","emptyDir":{}}]}},"volumeClaimTemplates":[{"metadata":{"name":"data"},"spec":{"resources":{"requests":{"storage":"1Gi"}}}}],"updateStrategy":{"type":"RollingUpdate","rollingUpdate":{"partition":1}}},"status":{"replicas":1,"collisionCount":0}}`))
 	f.Add([]byte(`{"metadata":{"creationTimestamp":null,"deletionTimestamp":"2020-01-01T00:00:00Z","managedFields":[{"manager":"m","time":"2020-01-01T00:00:00Z","fieldsV1":{"f:x":{}}}]},"spec":{"template":{"spec":{"containers":[]}},"selector":null},"status":{"conditions":[{"type":"x","status":"True","lastTransitionTime":null}]}}`))
@@ -498,8 +549,14 @@ func FuzzC19(f *testing.F) {
 	// found by this fuzzer: a quantity that apimachinery itself marshals lossily ("1000E" -> "1") - excluded by the
 	// self-round-trip premise, kept here so that the exclusion stays exercised
 	f.Add([]byte(`{"spec":{"template":{"spec":{"containers":[{"resources":{"limits":{"":"1000E"}}}]}}}}`))
+	// found by this fuzzer: a quantity with an astronomic exponent sends apimachinery's own parser/canonicaliser into
+	// minutes of math/big arithmetic (a worker "hung"): nothing of this repository is involved, such inputs are skipped
+	f.Add([]byte(`{"spec":{"template":{"spec":{"containers":[{"resources":{"limits":{"":"1000E7777777777"}}}]}}}}`))
 	r := rec("C19")
 	f.Fuzz(func(t *testing.T, data []byte) {
+		if hugeExponent.Match(data) {
+			return
+		}
 		var x appsv1.StatefulSet
 		if err := json.Unmarshal(data, &x); err != nil {
 			return
